@@ -19,6 +19,9 @@ def main(args, seed):
         print(f"unknown or not-claimed property {prop}; see MANIFEST.json not_applicable")
         return 2
     plan = PLANS[prop]
+    if getattr(plan, "uses_pristine", False):
+        from . import pristine
+        pristine.init_zygote()       # before this process executes any library operation
     print(f"VERIF_SEED={seed} property={prop} tier={args.tier}")
     if args.replay:
         return do_replay(plan, args.replay)
@@ -44,7 +47,9 @@ def do_check(plan, args, seed):
     known = known_mod.load()
     violations = []          # (idx, viol_json, scn, tag)
     known_lines = []
-    # 1. directed scenarios: regressions of fixed findings + deterministic demonstration of known findings
+    # 1. seeded search (first: the pool's workers are forked while this process is still pristine)
+    agg = runner.run_batch(plan, args.tier, seed, n_runs=args.runs, workers=args.workers)
+    # 2. directed scenarios: regressions of fixed findings + deterministic demonstration of known findings
     for d in plan.directed():
         run, viol = runner.execute(plan, d["scenario"])
         kf = sorted(set(getattr(run, "known_findings", ())))
@@ -59,8 +64,6 @@ def do_check(plan, args, seed):
                 print(f"note: known finding {fid} no longer reproduces on this tree ({d['name']})")
         if viol:
             violations.append((f"directed-{d['name']}", [v.to_json() for v in viol], d["scenario"], ""))
-    # 2. seeded search
-    agg = runner.run_batch(plan, args.tier, seed, n_runs=args.runs, workers=args.workers)
     for idx, vj, scn in sorted(agg["viols"], key=lambda t: t[0]):
         violations.append((idx, vj, scn, ""))
     for line in known_lines:
